@@ -565,6 +565,23 @@ func (db *DB) SetDeviceCertChain(ctx context.Context, chain []*x509.Certificate)
 	if !ok {
 		return fdo.ErrInvalidSession
 	}
+
+	// device_info.session has no UNIQUE constraint to upsert on, so replace
+	// the chain of an existing row before falling back to inserting one.
+	// Otherwise a second call would add a row that DeviceCertChain never
+	// reads.
+	query := "UPDATE device_info SET `x509_chain` = ? WHERE `session` = ?"
+	debug(db.debugCtx(ctx), "sqlite: %s\n%x", query, sessID)
+	result, err := db.db.ExecContext(ctx, query, derEncode(chain), sessID)
+	if err != nil {
+		return fmt.Errorf("error persisting device certificate chain: %w", err)
+	}
+	if n, err := result.RowsAffected(); err != nil {
+		return fmt.Errorf("error persisting device certificate chain: %w", err)
+	} else if n > 0 {
+		return nil
+	}
+
 	if err := db.insert(ctx, "device_info", map[string]any{
 		"x509_chain": derEncode(chain),
 		"session":    sessID,
@@ -640,7 +657,7 @@ func (db *DB) SetIncompleteVoucherHeader(ctx context.Context, ovh *fdo.VoucherHe
 	return db.insert(ctx, "incomplete_vouchers", map[string]any{
 		"session": sessID,
 		"header":  ovhCBOR,
-	}, nil)
+	}, []string{"session"})
 }
 
 // IncompleteVoucherHeader gets an incomplete (missing HMAC) voucher header
